@@ -13,7 +13,7 @@ import (
 	"pgregory.net/rapid"
 )
 
-// TestC11SameEndpointConcurrently: 2-4 goroutines make the same call on ONE dialer or listener at
+// TestC11SameEndpointConcurrently: 2-4 goroutines make the same call on ONE dialer, listener, context or socket at
 // the same instant.  Sequentially the second Dial/Listen on a started endpoint fails with
 // ErrAddrInUse and the second Close with ErrClosed; concurrent calls must linearise to one of those
 // orders: exactly one call succeeds, and a dialer ends up with exactly one connection.
@@ -21,7 +21,7 @@ func TestC11SameEndpointConcurrently(t *testing.T) {
 	stats.ScaledChecks(8, 6, func() {
 		rapid.Check(t, func(t *rapid.T) {
 			pn := rapid.SampledFrom([]string{"bus", "pub", "req", "push", "star", "surveyor"}).Draw(t, "ctor")
-			what := rapid.SampledFrom([]string{"dial", "dial", "listen", "close-dialer", "close-listener"}).Draw(t, "call")
+			what := rapid.SampledFrom([]string{"dial", "dial", "listen", "close-dialer", "close-listener", "close-socket", "close-context"}).Draw(t, "call")
 			tr := rapid.SampledFrom([]string{"inproc", "tcp", "ipc"}).Draw(t, "transport")
 			g := rapid.IntRange(2, 4).Draw(t, "goroutines")
 			rounds := rapid.IntRange(3, 12).Draw(t, "rounds")
@@ -40,6 +40,25 @@ func TestC11SameEndpointConcurrently(t *testing.T) {
 				var calls []func() error
 				wantLoser := mangos.ErrAddrInUse
 				switch what {
+				case "close-socket", "close-context":
+					// with a blocked Recv on the object, so that Close has something to wake
+					wantLoser = mangos.ErrClosed
+					var on interface {
+						Close() error
+						Recv() ([]byte, error)
+					} = S
+					if what == "close-context" {
+						c, err := S.OpenContext()
+						if err != nil {
+							on = S // the pattern has no contexts: the socket itself
+						} else {
+							on = c
+						}
+					}
+					go func() { _, _ = on.Recv() }()
+					for i := 0; i < g; i++ {
+						calls = append(calls, on.Close)
+					}
 				case "dial", "close-dialer":
 					addr, _, err := fixture.Listen(P, tr)
 					if err != nil {
